@@ -519,3 +519,70 @@ func VerifC13AliasOfSequence() {
 	}
 	verifCover("C13/alias-seq/end")
 }
+
+// VerifC13EmptyMerges: merge keys whose merged maps are empty (`<<: *e` with `e: &e {}`, `<<: {}`, `<<: []`, lists of
+// them, next to a non-empty one or not) in a map with or without explicit keys: explode leaves no merge key, alias or
+// anchor behind and the map holds exactly the explicit entries plus what the non-empty merged map contributes.
+func VerifC13EmptyMerges() {
+	k, v := verifStrN("k", 1, "ac"), verifStrN("v", 1, "03")
+	ak := verifStrN("ak", 1, "ac")
+	build := func() (*yaml.Node, *yaml.Node) {
+		e := vMap()
+		e.Anchor = "e"
+		a := vMap(vStr(ak), vInt("7"))
+		a.Anchor = "a"
+		al := func(n *yaml.Node, name string) *yaml.Node { return &yaml.Node{Kind: yaml.AliasNode, Value: name, Alias: n} }
+		var x *yaml.Node
+		switch verifChoice("merge", 7) {
+		case 0:
+			x = al(e, "e")
+		case 1:
+			x = vMap()
+		case 2:
+			x = vSeq()
+		case 3:
+			x = vSeq(al(e, "e"), vMap())
+		case 4:
+			x = vSeq(al(e, "e"), al(a, "a"))
+		case 5:
+			x = vSeq(al(a, "a"), al(e, "e"))
+		default:
+			x = vSeq(vMap(), vMap())
+		}
+		h := vMap(vS("!!merge", "<<"), x)
+		if verifChoice("explicit", 2) == 1 {
+			h.Content = append(h.Content, vStr(k), vInt(v))
+		}
+		return vMap(vStr("E"), e, vStr("A"), a, vStr("H"), h), h
+	}
+	root, _ := build()
+	route := verifChoice("route", 3)
+	var res *list.List
+	var err error
+	switch route {
+	case 0:
+		res, err = vEval(vParse("explode(.) | .H"), vDoc(root))
+	case 1:
+		res, err = vEval(vParse(".H | explode(.)"), vDoc(root))
+	default:
+		hres, e1 := vEval(vParse(".H"), vDoc(root))
+		if e1 != nil {
+			verifFail("C13/read-error empty-merges")
+		}
+		exp := ExpressionNode{Operation: &Operation{OperationType: explodeOpType}}
+		ctx, e2 := NewDataTreeNavigator().GetMatchingNodes(Context{MatchingNodes: hres}, &exp)
+		res, err = ctx.MatchingNodes, e2
+	}
+	label := "empty-merges route=" + verifItoa(int64(route))
+	verifAssert(err == nil && res != nil && res.Len() == 1, "C13/explode-error "+label)
+	if err != nil || res == nil || res.Len() != 1 {
+		return
+	}
+	h := res.Front().Value.(*CandidateNode)
+	verifAssert(c13Clean(h), "C13/explode-leaves-alias-merge-or-anchor "+label)
+	for i := 0; i+1 < len(h.Content); i += 2 {
+		verifAssert(h.Content[i].Tag != "!!merge" && h.Content[i].Value != "<<", "C13/explode-leaves-a-merge-key "+label)
+	}
+	verifObserve("exploded", vDump(h))
+	verifCover("C13/empty-merges/end")
+}
